@@ -78,10 +78,14 @@ impl CommonContext {
 
 impl Context for CommonContext {
     fn get_define(&self, name: &String) -> Option<Expr> {
+        #[cfg(avra_rs_verif)]
+        crate::verif_hook::yield_point(20);
         self.defines.borrow().get(name).map(|x| x.clone())
     }
 
     fn get_equ(&self, name: &String) -> Option<Expr> {
+        #[cfg(avra_rs_verif)]
+        crate::verif_hook::yield_point(21);
         self.equs
             .borrow()
             .get(&name.to_lowercase())
@@ -89,6 +93,8 @@ impl Context for CommonContext {
     }
 
     fn get_label(&self, name: &String) -> Option<(SegmentType, u32)> {
+        #[cfg(avra_rs_verif)]
+        crate::verif_hook::yield_point(22);
         self.labels
             .borrow()
             .get(&name.to_lowercase())
@@ -96,6 +102,8 @@ impl Context for CommonContext {
     }
 
     fn get_def(&self, name: &String) -> Option<Reg8> {
+        #[cfg(avra_rs_verif)]
+        crate::verif_hook::yield_point(23);
         self.defs
             .borrow()
             .get(&name.to_lowercase())
@@ -103,10 +111,14 @@ impl Context for CommonContext {
     }
 
     fn get_set(&self, name: &String) -> Option<Expr> {
+        #[cfg(avra_rs_verif)]
+        crate::verif_hook::yield_point(24);
         self.sets.borrow().get(name).map(|x| x.clone())
     }
 
     fn get_special(&self, name: &String) -> Option<Expr> {
+        #[cfg(avra_rs_verif)]
+        crate::verif_hook::yield_point(25);
         self.special
             .borrow()
             .get(&name.to_lowercase())
@@ -114,6 +126,8 @@ impl Context for CommonContext {
     }
 
     fn get_device(&self) -> Device {
+        #[cfg(avra_rs_verif)]
+        crate::verif_hook::yield_point(26);
         self.device
             .borrow()
             .as_ref()
@@ -122,18 +136,26 @@ impl Context for CommonContext {
     }
 
     fn set_define(&self, name: String, expr: Expr) -> Option<Expr> {
+        #[cfg(avra_rs_verif)]
+        crate::verif_hook::yield_point(27);
         self.defines.borrow_mut().insert(name, expr)
     }
 
     fn set_equ(&self, name: String, expr: Expr) -> Option<Expr> {
+        #[cfg(avra_rs_verif)]
+        crate::verif_hook::yield_point(28);
         self.equs.borrow_mut().insert(name.to_lowercase(), expr)
     }
 
     fn set_label(&self, name: String, value: (SegmentType, u32)) -> Option<(SegmentType, u32)> {
+        #[cfg(avra_rs_verif)]
+        crate::verif_hook::yield_point(29);
         self.labels.borrow_mut().insert(name, value)
     }
 
     fn set_def(&self, name: String, value: Reg8) -> Option<Reg8> {
+        #[cfg(avra_rs_verif)]
+        crate::verif_hook::yield_point(30);
         if self.exist(&name) {
             None
         } else {
@@ -142,6 +164,8 @@ impl Context for CommonContext {
     }
 
     fn set_special(&self, name: String, value: Expr) -> Option<Expr> {
+        #[cfg(avra_rs_verif)]
+        crate::verif_hook::yield_point(31);
         self.special.borrow_mut().insert(name, value)
     }
 }
